@@ -17,6 +17,10 @@ from concurrent.futures import ThreadPoolExecutor
 VERIF = os.path.dirname(os.path.abspath(__file__))
 BUILD = os.path.join(VERIF, "_build")
 FZ = os.path.join(BUILD, "bin", "fz_loaders")
+# development aid (tools/mutant_test.sh with KEEP_BIN): run the tiers against another binary of the target, without building
+ALT = os.environ.get("VERIF_C09_BIN")
+if ALT:
+    FZ = ALT
 WORK = os.path.join(BUILD, "work", "c09")
 VIOL = os.path.join(BUILD, "violations", "C09")
 
@@ -275,7 +279,8 @@ def check(pid, tier, seed):
     t0 = time.time()
     sys.path.insert(0, VERIF)
     import check as drv
-    drv.build(["fz_loaders"])
+    if not ALT:
+        drv.build(["fz_loaders"])
     shutil.rmtree(WORK, ignore_errors=True)
     os.makedirs(WORK)
     os.makedirs(VIOL, exist_ok=True)
@@ -410,7 +415,8 @@ def replay_cmd(path):
     (nf_Db.<hash>), or FZ_TARGET from the environment"""
     sys.path.insert(0, VERIF)
     import check as drv
-    drv.build(["fz_loaders"])
+    if not ALT:
+        drv.build(["fz_loaders"])
     base = os.path.basename(path).split(".")[0]
     target = os.environ.get("FZ_TARGET") or base.replace("nf_", "nf:")
     sig, out = replay(target, path, "manual")
